@@ -35,9 +35,13 @@ CatChain == <<
     R(M1("A", 1), M1("B", 1)), R(M1("C", 1), M1("D", 1)), R(M1("E", 1), M1("F", 1)),
     R(M2("C", 1, "F", 1), M1("G", 1)), R(M2("B", 1, "E", 1), M1("H", 1)), R(M1("D", 1), M1("G", 1)) >>
 Cat6 == <<Cat12[1], Cat12[2], Cat12[3], Cat12[5], Cat12[6], Cat12[10]>>
+Cat4 == <<Cat12[1], Cat12[2], Cat12[3], Cat12[5]>>
+CatChain5 == SubSeq(CatChain, 1, 5)
 NoComp == <<>>
 
-Modes_All == {"deduce", "list-all", "str-keys", "set-all", "odict-rot", "list-miss"}
+Modes_All == {"deduce", "list-all", "str-keys", "set-all", "odict-rot", "list-miss",
+              "dict-all", "dict-nosort", "tuple-keys", "tuple-sort", "list-sort", "list-add", "list-add-sort",
+              "deduce-nodup", "deduce-nocheck", "list-nocheck"}
 Modes_Two == {"deduce", "list-all"}
 Modes_One == {"deduce"}
 Modes_Conv == {"deduce", "list-all", "str-keys", "odict-rot"}
@@ -59,7 +63,7 @@ Q_Cat3 == {"concatn"}
 Q_HistCat == {"concatn-last"}
 Q_Bounds == {"bounds"}
 Q_Yields == {"yields"}
-Q_HistEnd == {"graph", "concatn-last"}
+Q_HistEnd == {"graph", "concatn-last", "order"}
 Q_SubYld == {"subset", "yields"}
 G_None == {}
 G_Q == {0, 2}
